@@ -106,6 +106,54 @@ def r12_1(run):
     run.count("write sites classified", n_sites)
 
 
+def r12_5(run):
+    """the arrays an operation caches for its backward pass are read-only there when the op has more than one operand: `self.<cache> *= grad`
+    in backward_var gives the second operand (and any later call) a state already scaled by the first -- its gradient is g**2 * df/dx.
+    Dict-like bookkeeping (counters keyed by operand) is not array state and is exempt."""
+    I = interp(run)
+    fx = facts(run)
+    n = 0
+    for c in run.project.concrete_ops():
+        m = c.lookup_method("backward_var")
+        if m is None:
+            continue
+        vs = opcontract.variables_of(run, c)
+        if vs is None or (not vs.star and len(vs.params) < 2):
+            continue
+        s = I.analyse(m, tensor_params=tensor_params_of(fx, c, m))
+        n += 1
+        for w in s.writes:
+            attrs = sorted(o[2:] for o, _ in w.target.origins if o.startswith("S:"))
+            if not attrs:
+                continue
+            # container-valued state (dict / Counter / defaultdict built by the op): bookkeeping, not an array
+            def _is_container(a_, _depth=0):
+                prop = c.lookup_method(a_)
+                if prop is not None and prop.has_decorator("property") and _depth < 3:
+                    ann = norm(prop.node.returns) if prop.node.returns is not None else ""
+                    if ann.split("[")[0].split(".")[-1] in ("Counter", "dict", "Dict", "defaultdict", "OrderedDict", "Mapping", "MutableMapping"):
+                        return True
+                    rets = [r_.value for r_ in own_nodes(prop.node) if isinstance(r_, ast.Return) and r_.value is not None]
+                    if rets and all(isinstance(r_, ast.Attribute) and norm(r_.value) == "self" and _is_container(r_.attr, _depth + 1) for r_ in rets):
+                        return True
+                for k_ in c.mro():
+                    for mm in k_.methods.values():
+                        for st_ in own_nodes(mm.node):
+                            if isinstance(st_, ast.Assign) and any(norm(t_) == f"self.{a_}" for t_ in st_.targets):
+                                v_ = st_.value
+                                if isinstance(v_, (ast.Dict, ast.DictComp)) or (isinstance(v_, ast.Call) and (dotted(v_.func) or "").split(".")[-1] in (
+                                        "dict", "Counter", "defaultdict", "OrderedDict", "set")):
+                                    return True
+                return False
+            arr = [a_ for a_ in attrs if not _is_container(a_)]
+            run.ob("R12.5", loc(m, w.node), f"{c.qualname[7:]} (via {m.short})" if m.cls is not c else m.short,
+                   f"backward_var leaves the cached array(s) {', '.join('self.' + a_ for a_ in attrs)} as the forward pass stored them", not arr,
+                   "dict-like bookkeeping only" if not arr else
+                   f"{w.how}: the op has {'several' if vs.star else len(vs.params)} operands, so the operand served second (and any repeated "
+                   f"backward) sees state already modified by the first -- its gradient is scaled twice")
+    run.count("multi-operand backward_var bodies checked for writes into cached arrays", n)
+
+
 def r12_2(run):
     I = interp(run)
     fi = anchor_func(run, f"{TENSOR}.backward")
@@ -272,6 +320,8 @@ def check(run):
     run.rule("R12.3", "every array stored into Tensor._grad is engine-owned: the copy rule of Operation.backward is verified against the worst "
              "case it must handle; no backward_var returns an input's array itself; seed / GRU / copy stores are fresh", floor=90)
     run.rule("R12.4", "cached state is returned as a gradient only by single-variable ops", floor=1)
+    run.rule("R12.5", "backward_var of a multi-operand op does not modify the arrays the forward pass cached", floor=0)
+    run.do(r12_5)
     run.do(r12_1)
     run.do(r12_2)
     run.do(r12_3)
